@@ -26,7 +26,7 @@ import random
 import time
 from concurrent.futures import ThreadPoolExecutor
 
-from vlib import trace
+from vlib import trace, tlc as _tlc
 from run import gen as G, stage, drive
 from run.render import Rendered
 from props import c16_xml
@@ -55,10 +55,14 @@ def switch_args(sw):
     return out
 
 
-def mk_job(key, prog, flat, cfg, fault, fault_kind="exc", sw=None, all_writers=False, kind="run"):
-    """a case of run/drive.py with --junit; without the other report writers unless all_writers"""
+def mk_job(key, prog, flat, cfg, fault, fault_kind="exc", sw=None, all_writers=False, kind="run", fault_text=None, hook=None):
+    """a case of run/drive.py with --junit; without the other report writers unless all_writers;
+    fault_text = the exception text of the raising hooks (drive.py), hook = [hook name, payload classes] for the signature"""
     job = {"key": key, "prog": prog, "flat": flat, "cfg": cfg, "fault": list(fault), "fault_kind": fault_kind,
            "reports": True, "plugins": ["c16"], "sw": dict(sw or {}), "kind": kind, "all_writers": bool(all_writers)}
+    if fault_text is not None:
+        job["fault_text"] = fault_text
+        job["hook"] = list(hook or ["", []])
     job["extra_args"] = switch_args(job["sw"])
     if not all_writers:
         job["formats"] = []
@@ -109,15 +113,59 @@ def job_class(job):
             c["expr"] != "true", bool(c["show_skipped"]), bool(c["dry"]), len(job["prog"]["features"]) > 1)
 
 
+def _nscen(job):
+    return sum(1 for e in job["flat"]["elems"] if e["kind"] == "scenario")
+
+
+def _cuts(job):
+    """the run is (very likely) cut before its last scenario: something fails and --stop is on, a step raises
+    KeyboardInterrupt, or a hook fault is injected (a failing before hook leaves everything below it untested)"""
+    c = job_class(job)
+    outs = [s["o"] for e in job["flat"]["elems"] for s in e["steps"]]
+    return _nscen(job) >= 2 and ((job["cfg"]["stop"] and (c[2] or c[3] or c[1])) or "kbd" in outs or c[1])
+
+
+# attribute classes that must be present whatever the plan and the seed look like: name -> predicate on the case
+GUARANTEED = [
+    ("hidden_skipped_cut_run", lambda j: not j["cfg"]["show_skipped"] and not j["cfg"]["dry"] and _cuts(j)),
+    ("hidden_skipped_dry_run", lambda j: not j["cfg"]["show_skipped"] and j["cfg"]["dry"] and _nscen(j) >= 2),
+    ("hidden_skipped_tag_selection", lambda j: not j["cfg"]["show_skipped"] and not j["cfg"]["dry"] and j["cfg"]["expr"] != "true"),
+    ("shown_skipped_tag_selection", lambda j: j["cfg"]["show_skipped"] and not j["cfg"]["dry"] and j["cfg"]["expr"] != "true"),
+    ("shown_skipped_cut_run", lambda j: j["cfg"]["show_skipped"] and not j["cfg"]["dry"] and _cuts(j)),
+    ("shown_skipped_dry_run", lambda j: j["cfg"]["show_skipped"] and j["cfg"]["dry"] and _nscen(j) >= 2),
+    ("hook_fault", lambda j: job_class(j)[1] and not j["cfg"]["dry"]),
+    ("failing_step", lambda j: job_class(j)[2] and not j["cfg"]["dry"]),
+    ("erroring_step", lambda j: job_class(j)[3] and not j["cfg"]["dry"]),
+    ("outline_with_problem", lambda j: job_class(j)[4] and (job_class(j)[2] or job_class(j)[3]) and not j["cfg"]["dry"]),
+    ("rule_with_problem", lambda j: job_class(j)[5] and (job_class(j)[2] or job_class(j)[3]) and not j["cfg"]["dry"]),
+    ("several_features", lambda j: job_class(j)[9]),
+    ("continue_after_failed_step", lambda j: j["cfg"]["cont"] and job_class(j)[2] and not j["cfg"]["dry"]),
+]
+
+
 def thin(jobs, quota, rnd):
-    """every case with a raising cleanup of a scenario layer first (rare), then round robin over the classes
-    (hook fault, failing / erroring steps, outline, rule, tag selection, show_skipped, dry-run, several features)"""
+    """every case with a raising cleanup of a scenario layer first (rare), then a guaranteed minimum per attribute
+    class of GUARANTEED (so that no class depends on what the round robin happens to pick), then round robin over the
+    classes (hook fault, failing / erroring steps, outline, rule, tag selection, show_skipped, dry-run, several features)"""
     if len(jobs) <= quota:
         return list(jobs)
     first = [j for j in jobs if job_class(j)[0]]
     rnd.shuffle(first)
     first = first[:quota // 4]
     taken = {id(j) for j in first}
+    minimum = max(30, quota // 40)
+    pool = list(jobs)
+    rnd.shuffle(pool)
+    for _name, pred in GUARANTEED:
+        n = 0
+        for j in pool:
+            if n >= minimum:
+                break
+            if pred(j):
+                n += 1
+                if id(j) not in taken:
+                    taken.add(id(j))
+                    first.append(j)
     classes = {}
     for j in jobs:
         if id(j) not in taken:
@@ -273,6 +321,45 @@ def design_prog(case):
     return {"features": [G.feature(items)], "family": "design"}
 
 
+# ------------------------------------------------------------------------------------------------ "hook" rows
+# hostile text in the exception message of a raising hook (the payload alphabet of the XML part): scenario-level and
+# tag hooks end in error/@message (HOOK-ERROR in ...: <text>), step hooks in the captured output and the CDATA text
+HOOK_PROGS = [
+    ("passing", ["pass", "pass"], [("before_tag", 0), ("before_scenario", 0), ("after_scenario", 0), ("after_tag", 0),
+                                   ("before_step", 1), ("after_step", 2)]),
+    ("failed_step", ["fail", "pass"], [("after_scenario", 0), ("after_tag", 0), ("after_step", 1)]),
+]
+
+
+def hook_payloads(rnd, quick):
+    classes = [[c] for c in c16_xml.CLS_ORDER] + [list(t) for t in c16_xml.TARGETED]
+    classes += [["plain", c, "plain"] for c in ("c0", "c0ws", "delc1", "esc", "fffe", "ws", "astral")]
+    out, seen = [], set()
+    for cl in classes:
+        for text in c16_xml.payloads_for(cl, rnd, nreps=2 if quick else 4, combos_upto=1 if quick else 2, picks=1 if quick else 2):
+            if text and (tuple(cl), text) not in seen:
+                seen.add((tuple(cl), text))
+                out.append((cl, text))
+    return out
+
+
+def hook_jobs(rnd, quick):
+    jobs = []
+    cfg = G.cfg()
+    for pname, outs, targets in HOOK_PROGS:
+        prog = {"features": [G.feature([G.scenario(outs, ["t1"]), G.scenario(["pass"])])], "family": "hook"}
+        flat = G.flatten(prog)
+        probe = drive.run_case({"prog": prog, "flat": flat, "cfg": cfg, "fault": [0, 0], "fault_kind": "exc"})
+        for name, pos in targets:
+            n = _hook_n(probe["events"], name, 2, pos)
+            if not n:
+                raise RuntimeError("hook %s of the probe program %s is not reached" % (name, pname))
+            for k, (cl, text) in enumerate(hook_payloads(rnd, quick)):
+                jobs.append(mk_job(["hook", pname, name, len(jobs)], prog, flat, cfg, [n, 0], "assert" if k % 3 == 0 else "exc",
+                                   kind="hook", fault_text=text, hook=[name, cl]))
+    return jobs
+
+
 def _hook_n(events, name, el, pos):
     for e in events:
         if e["k"] == "hook" and e["name"] == name and e["el"] == el and e["pos"] == pos:
@@ -357,6 +444,8 @@ def describe(job, row, out):
                                  [[e["kind"], e["type"], e["message"][:60], e["steps"], e["hooks"]] for e in c["entries"]
                                   if e["kind"] not in ("system-out", "system-err")]] for c in f["cases"]]})
     return json.dumps({"kind": job["kind"], "cfg": job["cfg"], "fault": job["fault"], "switches": job["sw"],
+                       "hook_exception_text": job.get("fault_text", ""), "hook": job.get("hook", []),
+                       "parse_errors": [f["parse_error"] for f in out["reports"]["c16"]["files"] if f["parse_error"]],
                        "all_writers": job["all_writers"], "features": [t for _n, t in R.files],
                        "final_status": row["end"]["status"], "step_status": row["end"]["step_status"],
                        "hook_failed": row["end"]["hook_failed"], "escaped": row["end"]["escaped"],
@@ -364,7 +453,7 @@ def describe(job, row, out):
                        "reports [tests, failures, errors, skipped]": files}, sort_keys=True)
 
 
-def signature(v, row):
+def signature(v, row, job=None):
     clause, attr, el = v[2], v[3], v[4]
     parts = [clause, attr]
     if clause.startswith("C16.no_crash"):
@@ -374,6 +463,11 @@ def signature(v, row):
         bad = [k for k in scen if row["end"]["status"][k] in ("error", "hook_error") and not row["end"]["hook_failed"][k]
                and not any(s in ("error", "hook_error", "pending", "undefined") for s in steps[k])]
         parts.append("failed_step=%d" % int(any("failed" in steps[k] for k in bad)))
+    elif clause == "C16.wellformed":
+        hook = (job or {}).get("hook") or ["", []]
+        bad = [c for c in hook[1] if c in ("c0", "c0ws", "delc1", "esc", "fffe")] or hook[1]
+        parts.append("src=%s_message" % (hook[0] or "none"))
+        parts.append("class=%s" % "+".join(sorted(set(bad))))
     elif clause.split("/")[0] in ("C16.status", "C16.problem_entry") and 0 < el <= len(row["end"]["status"]):
         parts.append("status=%s" % row["end"]["status"][el - 1])
     parts.append("dry=%d" % int(row["cfg"]["dry"]))
@@ -393,7 +487,10 @@ def judge(chk, rows, metas):
             job, out = metas[rid]
             row = byid[rid]
             payload = {"part": "run", "job": {k: job[k] for k in ("key", "prog", "cfg", "fault", "fault_kind", "sw", "all_writers", "kind")}}
-            chk.violation(v[2].split("/")[0], signature(v, row), describe(job, row, out), payload)
+            if "fault_text" in job:
+                payload["job"]["fault_text_codepoints"] = [ord(ch) for ch in job["fault_text"]]
+                payload["job"]["hook"] = job["hook"]
+            chk.violation(v[2].split("/")[0], signature(v, row, job), describe(job, row, out), payload)
     return verdicts, diverge
 
 
@@ -417,7 +514,8 @@ def run(chk):
     # 1. design level: TLC runs in the background while the XML part and the real runs are driven
     ex = ThreadPoolExecutor(max_workers=1)
     mc_cfg = "JUnit_MC_quick.cfg" if quick else "JUnit_MC_thorough.cfg"
-    fut = ex.submit(chk.tlc, "JUnit_MC", mc_cfg, timeout=3000, workers=max(2, WORKERS // 4) if quick else max(3, WORKERS // 2),
+    # (run_tlc, not chk.tlc: the XML part reads the tail of chk.tlc_runs while this thread is running)
+    fut = ex.submit(_tlc.run_tlc, "JUnit_MC", mc_cfg, timeout=3000, workers=max(2, WORKERS // 4) if quick else max(3, WORKERS // 2),
                     coverage=False, heap="8g")
     try:
         # part "xml" (finished elsewhere): well-formedness
@@ -434,11 +532,14 @@ def run(chk):
             sw = SWITCH_SETS[n % len(SWITCH_SETS)]
             cfg = dict(j["cfg"], show_skipped=False) if n % 2 == 0 else j["cfg"]
             sjobs.append(mk_job(["switch", n] + j["key"][1:], j["prog"], j["flat"], cfg, j["fault"], j["fault_kind"], sw=sw, kind="switch"))
+        # 5. hostile text in the exception messages of raising hooks
+        sjobs += hook_jobs(rnd, quick)
         run_out = run_jobs(jobs + sjobs)
         walls["runs"] = round(time.time() - t0, 1)
     finally:
         r = fut.result()
         ex.shutdown()
+    chk.tlc_runs.append(("JUnit_MC", mc_cfg, r))
     walls["design_mc"] = round(r.wall, 1)
     for name in r.violated:
         chk.violation("C16.design." + name, "design:%s" % name, "TLC: invariant %s violated in JUnit_MC (%s)" % (name, mc_cfg))
@@ -448,8 +549,14 @@ def run(chk):
     # 2. emitted abstract features on the real runner
     producible = [c for c in emitted if design_plan(c) is not None]
     small = [c for c in producible if len(c["ds"]) <= 1]
-    rest = [c for c in producible if len(c["ds"]) > 1]
-    nrest = 220 if quick else 5000
+    # always run with skipped scenarios hidden: two scenarios (plain / rule / outline rows / outline in a rule) the second of
+    # which ends untested after a cut, and the dry-run combinations -- TLC emits every one of them (Forced in JUnit_MC)
+    def two(sh):                # [s, s], rule(2), outline(2 rows), rule holding outline(2 rows)
+        return (len(sh) == 2 and all(it["k"] == "s" for it in sh)) or (len(sh) == 1 and sh[0]["n"] == 2)
+    forced = [c for c in producible if len(c["ds"]) == 2 and two(c["sh"]) and (c["dry"] or c["ds"][1] == "untested")]
+    fkeys = {json.dumps([c["sh"], c["ds"]], sort_keys=True) for c in forced}
+    rest = [c for c in producible if len(c["ds"]) > 1 and json.dumps([c["sh"], c["ds"]], sort_keys=True) not in fkeys]
+    nrest = 160 if quick else 5000
     if len(rest) > nrest:
         rest = rnd.sample(rest, nrest)
     dargs = []
@@ -457,6 +564,10 @@ def run(chk):
         for show in (True, False):
             if show or c["hidden"] != c["shown"]:
                 dargs.append({"case": c, "show": show, "key": ["design", len(dargs)]})
+    for n, c in enumerate(forced):
+        dargs.append({"case": c, "show": False, "key": ["design", len(dargs)]})
+        if n % 4 == 0:
+            dargs.append({"case": c, "show": True, "key": ["design", len(dargs)]})
     design_out = pmap(design_case, dargs)
     rows, metas = [], {}
     for job, o in zip(jobs + sjobs, run_out):
@@ -478,6 +589,17 @@ def run(chk):
         metas[rid] = (o["job"], o["out"])
         if o["realised"] and prediction_differs(o["case"], o["show"], rows[-1]):
             mispredicted.append({"ds": o["case"]["ds"], "sh": o["case"]["sh"], "show": o["show"]})
+    not_reached = []
+    for rid, (job, o) in metas.items():
+        text = job.get("fault_text")
+        if text and job["hook"][0] not in ("before_step", "after_step") and c16_xml._is_xml_text(text) and "ws" not in job["hook"][1]:
+            msgs = [e["message"] for f in o["reports"]["c16"]["files"] for c in f["cases"] for e in c["entries"] if e["kind"] in ("error", "failure")]
+            if not any(text.strip() in m for m in msgs):
+                not_reached.append({"hook": job["hook"], "codepoints": [ord(ch) for ch in text]})
+    chk.extra["hook_rows_payload_not_in_message"] = len(not_reached)
+    if not_reached:
+        chk.extra["hook_rows_payload_not_in_message_samples"] = not_reached[:5]
+        chk.note("C16 hook rows: %d well-formed reports in which the hook's exception text was not found in error/@message (informational)" % len(not_reached))
     walls["design_rows"] = round(time.time() - t0, 1)
     verdicts, diverge = judge(chk, rows, metas)
     walls["judged"] = round(time.time() - t0, 1)
@@ -494,7 +616,7 @@ def run(chk):
     if unrealised:
         chk.extra["design_unrealised_samples"] = unrealised[:5]
         chk.note("C16 design rows: %d emitted features were not realised with the intended final statuses (informational)" % len(unrealised))
-    nrows = {k: sum(1 for j, _o in metas.values() if j["kind"] == k) for k in ("run", "switch", "design")}
+    nrows = {k: sum(1 for j, _o in metas.values() if j["kind"] == k) for k in ("run", "switch", "hook", "design")}
     chk.impl_traces += len(rows)
     chk.evaluations += sum(len(x["files"]) for x in rows)
     chk.exhaustive = False
@@ -511,13 +633,37 @@ def run(chk):
     chk.extra["run_rows_dry"] = sum(1 for x in rows if x["cfg"]["dry"])
     chk.extra["run_rows_show_skipped_off"] = sum(1 for x in rows if not x["cfg"]["show_skipped"])
     chk.extra["run_rows_all_report_writers"] = sum(1 for j, _o in metas.values() if j["all_writers"])
-    chk.extra["run_rows_with_verdict"] = {k: sum(1 for rid in verdicts if metas[rid][0]["kind"] == k) for k in ("run", "switch", "design")}
+    chk.extra["run_rows_with_verdict"] = {k: sum(1 for rid in verdicts if metas[rid][0]["kind"] == k) for k in ("run", "switch", "hook", "design")}
     counts = {}
     for f in docs:
         for c in f["cases"]:
             key = "%s:%s" % (c["status"], "+".join(e["kind"] for e in c["entries"] if e["kind"] in ("failure", "error", "skipped")))
             counts[key] = counts.get(key, 0) + 1
     chk.extra["run_testcases_by_status_and_entries"] = counts
+    observed = {"hidden_skipped_with_untested_testcase": 0, "hidden_skipped_dry_run_with_testcases": 0, "hidden_skipped_scenario_left_out": 0,
+                "shown_skipped_testcase": 0, "shown_untested_testcase": 0, "failed_testcase": 0, "error_testcase": 0,
+                "hook_error_testcase": 0, "outline_row_testcase": 0, "several_documents": 0, "reporter_raised": 0}
+    for x in rows:
+        show = x["cfg"]["show_skipped"] or x["sw"]["show_skipped_always"]
+        fs = [f for f in x["files"] if f["exists"] and f["wellformed"]]
+        sts = {c["status"] for f in fs for c in f["cases"]}
+        listed = {c["el"] for f in fs for c in f["cases"]}
+        observed["hidden_skipped_with_untested_testcase"] += int(not show and not x["cfg"]["dry"] and "untested" in sts)
+        observed["hidden_skipped_dry_run_with_testcases"] += int(not show and x["cfg"]["dry"] and bool(sts))
+        observed["hidden_skipped_scenario_left_out"] += int(not show and bool(fs) and any(
+            e["kind"] == "scenario" and x["end"]["status"][k] == "skipped" and k + 1 not in listed for k, e in enumerate(x["prog"])))
+        observed["shown_skipped_testcase"] += int(show and "skipped" in sts)
+        observed["shown_untested_testcase"] += int(show and "untested" in sts)
+        observed["failed_testcase"] += int("failed" in sts)
+        observed["error_testcase"] += int("error" in sts)
+        observed["hook_error_testcase"] += int("hook_error" in sts)
+        observed["outline_row_testcase"] += int(any(x["prog"][x["prog"][el - 1]["parent"] - 1]["kind"] == "outline" for el in listed if el))
+        observed["several_documents"] += int(len(fs) > 1)
+        observed["reporter_raised"] += int(bool(x["end"]["escaped"]) and x["tail"]["name"] == "eof")
+    chk.extra["run_rows_by_observed_class"] = observed
+    empty = [k for k, n in observed.items() if not n and k != "reporter_raised"]
+    if empty:
+        raise RuntimeError("C16: no row of the mandatory classes %s was produced (thinning / design rows)" % empty)
     chk.extra["design_cases_emitted"] = len(emitted)
     chk.extra["design_cases_using_KF_C16_cleanup_error_no_step"] = kf_design
     chk.extra["design_cases_producible"] = len(producible)
@@ -562,8 +708,9 @@ def replay(chk, payload):
         return c16_xml.replay_xml(chk, payload)
     j = rp["job"]
     flat = G.flatten(j["prog"])
+    text = u"".join(chr(c) for c in j["fault_text_codepoints"]) if "fault_text_codepoints" in j else None
     job = mk_job(j["key"], j["prog"], flat, j["cfg"], j["fault"], j.get("fault_kind", "exc"), sw=j.get("sw"),
-                 all_writers=j.get("all_writers", False), kind=j.get("kind", "run"))
+                 all_writers=j.get("all_writers", False), kind=j.get("kind", "run"), fault_text=text, hook=j.get("hook"))
     out = run_jobs([job])[0]
     rows = [make_row(1, job, out)]
     judge(chk, rows, {1: (job, out)})
